@@ -201,6 +201,7 @@ def build_replay():
 
 
 def run_replay(cfg, seed=1, timeout=900):
+    """(raises subprocess.TimeoutExpired when the scenario does not terminate)"""
     build_replay()
     env = dict(os.environ, VERIF_SEED=str(seed))
     with tempfile.NamedTemporaryFile('w', suffix='.json', delete=False, dir=BUILD) as f:
@@ -459,7 +460,14 @@ def _canon_handles(text):
 def parallel_cases(ctx, cases, analyse, workers=14, enc=0):
     """run symx on every case config and analyse each dump (own solver session per worker thread)"""
     def work(case):
-        d = run_symx(case['cfg'], ctx.seed, enc)
+        try:
+            d = run_symx(case['cfg'], ctx.seed, enc, timeout=300)
+        except subprocess.TimeoutExpired:
+            # the library call itself does not return (e.g. a rejection-sampling loop fed by a stuck RNG): an outcome, replayed on the real crates
+            with ctx.lock:
+                ctx.findings.append(Finding(ctx.pid, ctx.pid + ':does-not-terminate', 'the scenario did not terminate within 300 s on the model crates: %s' % json.dumps(case['cfg'])[:300],
+                                            case['cfg'], 'does_not_terminate'))
+            return True
         run = Run(d)
         S = Session('z3', ctx.D.timeout_s)
         S.T = run.T
